@@ -59,13 +59,14 @@ VARIABLES role0,    \* role the user was created with
           cur,      \* current permission on "own" (SysAdmin: "SysAdmin")
           active,   \* user is active
           sess,     \* slot -> [kind, st, sel]
+          nlog,     \* policy: number of the user's token logins that have not logged out since the logins were last cut off
           logins,   \* code model: reference count of the token login list
           cached,   \* code model: permission on "own" cached in the login list at the last Login
           epoch,    \* code model: generation of the user's token signing keys (DropTokenKeys starts a new one)
           last,     \* the last call: pre-state and outcome
           steps,    \* number of management steps so far
           hist      \* history (observation only)
-vars == <<role0, cur, active, sess, logins, cached, epoch, last, steps, hist>>
+vars == <<role0, cur, active, sess, nlog, logins, cached, epoch, last, steps, hist>>
 
 NoSess == [kind |-> "session", st |-> "none", sel |-> "none", ep |-> 0]
 NoCall == [is |-> FALSE, permitted |-> FALSE]
@@ -197,7 +198,7 @@ Dec == IF QRefCount THEN (IF logins > 0 THEN logins - 1 ELSE 0) ELSE 0
 
 Init == /\ role0 \in Roles /\ cur = role0 /\ active = TRUE
         /\ sess = [i \in 1..NSess |-> NoSess]
-        /\ logins = 0 /\ cached = role0 /\ epoch = 0 /\ last = NoCall /\ steps = 0 /\ hist = <<>>
+        /\ nlog = 0 /\ logins = 0 /\ cached = role0 /\ epoch = 0 /\ last = NoCall /\ steps = 0 /\ hist = <<>>
 
 Running == Mode = "trace" \/ (~last.is /\ steps < MaxSteps)
 
@@ -216,7 +217,7 @@ OpenSession(i, d) ==
   /\ Running /\ sess[i].st = "none"
   /\ PolicyOK(CallRec(0, Out(TRUE, FALSE, TRUE, {[k |-> "auth", db |-> d]})))
   /\ sess' = OpenSessionEffect(i, d)
-  /\ UNCHANGED <<role0, cur, active, logins, cached, epoch, last>>
+  /\ UNCHANGED <<role0, cur, active, nlog, logins, cached, epoch, last>>
   /\ Step(Ev("opensession", i, "session", d, "-"))
 
 \* Login(user, password): token authentication, no database selected yet
@@ -224,7 +225,7 @@ Login(i) ==
   /\ Running /\ sess[i].st = "none"
   /\ PolicyOK(CallRec(0, Out(TRUE, FALSE, TRUE, {[k |-> "auth", db |-> "none"]})))
   /\ sess' = LoginEffect(i)
-  /\ logins' = logins + 1 /\ cached' = cur
+  /\ nlog' = nlog + 1 /\ logins' = logins + 1 /\ cached' = cur
   /\ UNCHANGED <<role0, cur, active, epoch, last>>
   /\ Step(Ev("login", i, "token", "none", "-"))
 
@@ -232,25 +233,25 @@ UseDatabase(i, d) ==
   /\ Running /\ sess[i].st = "valid" /\ sess[i].sel # d
   /\ PolicyOK(CallRec(i, Out(TRUE, TRUE, FALSE, {[k |-> "auth", db |-> d]})))
   /\ sess' = UseDatabaseEffect(i, d)
-  /\ UNCHANGED <<role0, cur, active, logins, cached, epoch, last>>
+  /\ UNCHANGED <<role0, cur, active, nlog, logins, cached, epoch, last>>
   /\ Step(Ev("usedatabase", i, sess[i].kind, d, "-"))
 
 \* an administrator grants / revokes the user's permission on "own"
 SetPermission(p) ==
   /\ Running /\ ~IsSys /\ active /\ p \in Roles \ {"SysAdmin", cur}
-  /\ cur' = p /\ sess' = Invalidate("permissionChanged") /\ logins' = Dec
+  /\ cur' = p /\ sess' = Invalidate("permissionChanged") /\ logins' = Dec /\ nlog' = 0
   /\ UNCHANGED <<role0, active, cached, epoch, last>>
   /\ Step(Ev("setpermission", 0, "-", "own", p))
 
 Deactivate ==
   /\ Running /\ ~IsSys /\ active
-  /\ active' = FALSE /\ sess' = Invalidate("userDeactivated") /\ logins' = Dec
+  /\ active' = FALSE /\ sess' = Invalidate("userDeactivated") /\ logins' = Dec /\ nlog' = 0
   /\ UNCHANGED <<role0, cur, cached, epoch, last>>
   /\ Step(Ev("deactivate", 0, "-", "-", "-"))
 
 Activate ==
   /\ Running /\ ~active
-  /\ active' = TRUE /\ sess' = Invalidate("userDeactivated") /\ logins' = Dec
+  /\ active' = TRUE /\ sess' = Invalidate("userDeactivated") /\ logins' = Dec /\ nlog' = 0
   /\ UNCHANGED <<role0, cur, cached, epoch, last>>
   /\ Step(Ev("activate", 0, "-", "-", "-"))
 
@@ -259,48 +260,51 @@ Activate ==
 Expire(i) ==
   /\ Running /\ sess[i].st = "valid" /\ sess[i].kind = "session"
   /\ sess' = [sess EXCEPT ![i].st = "expired"]
-  /\ UNCHANGED <<role0, cur, active, logins, cached, epoch, last>>
+  /\ UNCHANGED <<role0, cur, active, nlog, logins, cached, epoch, last>>
   /\ Step(Ev("expire", i, sess[i].kind, "-", "-"))
 
-\* CloseSession ends that session.  Logout (token) ends the user's LOGIN: the login list counts the user's
-\* clients, so while another client of the user is logged in the token stays honoured (login-list semantics);
-\* when the last client logs out the signing keys are dropped and every token of the user is dead for good
-OtherLive(i) == \E j \in 1..NSess : j # i /\ sess[j].kind = "token" /\ sess[j].st = "valid"
+\* CloseSession ends that session.  Logout (token) ends one LOGIN of the user: the server counts the user's logins,
+\* a token is not tied to one of them, so while another login of the user is alive the token stays honoured
+\* (login-list semantics); when the last login ends the signing keys are dropped and every token of the user is
+\* dead for good
+LastLogin == nlog <= 1
 Logout(i) ==
   /\ Running /\ sess[i].st = "valid"
   /\ sess' = IF sess[i].kind = "session" THEN [sess EXCEPT ![i].st = "loggedOut"]
-             ELSE IF OtherLive(i) THEN sess
-             ELSE [j \in 1..NSess |-> IF sess[j].kind = "token" /\ sess[j].st # "none"
+             ELSE IF ~LastLogin THEN sess
+             ELSE [j \in 1..NSess |-> IF sess[j].kind = "token" /\ sess[j].st \notin {"none", "expired"}
                                       THEN [sess[j] EXCEPT !.st = "loggedOut"] ELSE sess[j]]
+  /\ nlog' = IF sess[i].kind = "token" /\ nlog > 0 THEN nlog - 1 ELSE nlog
   /\ logins' = IF sess[i].kind = "token" THEN (IF logins > 0 THEN logins - 1 ELSE 0) ELSE logins
   /\ epoch' = IF sess[i].kind = "token" /\ logins <= 1 THEN epoch + 1 ELSE epoch
   /\ UNCHANGED <<role0, cur, active, cached, last>>
   /\ Step(Ev("logout", i, sess[i].kind, "-", "-"))
 
-\* a request on slot i (0 = no session) ends the history
 \* policy mode: every single-effect outcome is tried; `permitted` records the policy's verdict and only
 \* permitted calls are behaviours of the specification (the invariants below are conditional on it)
 CallPolicy(i, out) ==
   /\ ~last.is
   /\ last' = CallRec(i, out)
-  /\ UNCHANGED <<role0, cur, active, sess, logins, cached, epoch>>
+  /\ UNCHANGED <<role0, cur, active, sess, nlog, logins, cached, epoch>>
   /\ Step(Ev("call", i, Slot(i).kind, "-", "-"))
 CallCode(i, cls) ==
   /\ ~last.is /\ (i > 0 \/ cls[1] = "public")
   /\ last' = CallRec(i, GoOutcome(i, cls))
-  /\ UNCHANGED <<role0, cur, active, sess, logins, cached, epoch>>
+  /\ UNCHANGED <<role0, cur, active, sess, nlog, logins, cached, epoch>>
   /\ Step(Ev("call", i, Slot(i).kind, cls[2], cls[1]))
 \* trace mode: outcome from the log
 CallLogged(i, out) ==
   /\ last' = CallRec(i, out)
-  /\ UNCHANGED <<role0, cur, active, sess, logins, cached, epoch, steps, hist>>
+  /\ UNCHANGED <<role0, cur, active, sess, nlog, logins, cached, epoch, steps, hist>>
 
 Manage == \/ \E i \in 1..NSess, d \in Dbs : OpenSession(i, d) \/ UseDatabase(i, d)
           \/ \E i \in 1..NSess : Login(i) \/ Expire(i) \/ Logout(i)
           \/ \E p \in Roles : SetPermission(p)
           \/ Deactivate \/ Activate
 Next == \/ Manage
-        \/ Mode = "policy" /\ \E i \in 0..NSess, out \in RowOutcomes : CallPolicy(i, out)
+        \/ Mode = "policy" /\ ~EmitHist /\ \E i \in 0..NSess, out \in RowOutcomes : CallPolicy(i, out)
+        \* simulation (EmitHist): a behaviour is MaxSteps management steps followed by one call that prints it
+        \/ Mode = "policy" /\ EmitHist /\ steps >= MaxSteps /\ CallPolicy(0, Out(FALSE, TRUE, FALSE, {}))
         \/ Mode = "code" /\ \E i \in 0..NSess, cls \in Classes : CallCode(i, cls)
 Spec == Init /\ [][Next]_vars
 
@@ -317,6 +321,6 @@ EmitHistory == (EmitHist /\ last.is) => PrintT(<<"JSON:", ToJson([role |-> role0
                                                                    cur |-> cur, active |-> active])>>)
 \* the call state is projected to what the matrix keys on (keeps the state graph small)
 View == IF last.is THEN (IF Mode = "policy" THEN <<"call", LastRow>> ELSE <<"call", last>>)
-        ELSE IF Mode = "policy" THEN <<"run", role0, cur, active, [i \in 1..NSess |-> <<sess[i].kind, sess[i].st, sess[i].sel>>]>>
-        ELSE <<"run", role0, cur, active, sess, logins, cached, epoch>>
+        ELSE IF Mode = "policy" THEN <<"run", role0, cur, active, nlog, [i \in 1..NSess |-> <<sess[i].kind, sess[i].st, sess[i].sel>>]>>
+        ELSE <<"run", role0, cur, active, sess, nlog, logins, cached, epoch>>
 =============================================================================
